@@ -387,7 +387,10 @@ def shard_handed_to(shard, seed, n):
             sent = None
             if os.path.exists(log):
                 for line in open(log):
-                    cmd = json.loads(line)["cmd"] or ""
+                    try:
+                        cmd = json.loads(line)["cmd"] or ""
+                    except ValueError:
+                        continue        # (a record truncated by the end of the process is not information)
                     if cmd.startswith("(set-logic"):
                         sent = cmd.split()[1].rstrip(")")
                         break
